@@ -115,3 +115,28 @@ chk('C20', 'exploration',
     'property-based testing (Hypothesis) with an independent reference codec '
     '+ enumeration of carry constructions',
     'DESIGN.md 7 C20')
+chk('C10', 'exploration',
+    'Model-based generation of operation chains (copy, slice, subset, '
+    'rename, apply, eval, mask, stack, interpSigma; quick <=6, thorough <=14 '
+    'steps) on generated gridded and boundary IOAPI files from four '
+    'construction routes; after every returning operation the '
+    'self-describing metadata is compared with the content, and '
+    'audit_meta(fail="ignore") is cross-checked as a second oracle.',
+    'Operation sequences are sampled to the stated depth; a raising '
+    'operation is counted, not judged (C10 is about metadata of results); '
+    'projection-dependent paths need pyproj (absent).',
+    'stateful property-based testing (Hypothesis interactive draws from the '
+    'current model, journal replay) with an invariant oracle',
+    'DESIGN.md 7 C10')
+chk('C11', 'exploration',
+    'Generated IOAPI files x windows (positive/negative int or unit-stride '
+    'slice over any subset of ROW, COL, LAY, TSTEP, incl. day/year '
+    'crossings and steps >= 24 h) judged by exact origin arithmetic, level '
+    'sub-ranges and independent calendar arithmetic; every single window and '
+    'pair of windows on a fixed year-crossing file is enumerated (thorough: '
+    'the full product, exhaustive for that file).',
+    'Origins/cell sizes are binary fractions so equality is exact; index '
+    'lists and strides != 1 are outside the statement.',
+    'property-based testing (Hypothesis) + exhaustive window enumeration on '
+    'a fixed file',
+    'DESIGN.md 7 C11')
